@@ -2,7 +2,7 @@
    signature so that a single small OCaml driver (or a generated cases.v) can run
    them:  dispatch id scalars coords indices : option (list Q). *)
 From Coq Require Import List ZArith QArith Bool.
-Require Import Cox.Num.Ops Cox.Geo.Vec Cox.Model.Mesh Cox.Model.Polygon Cox.Model.Inside.
+Require Import Cox.Num.Ops Cox.Geo.Vec Cox.Model.Mesh Cox.Model.Polygon Cox.Model.Inside Cox.Model.Curved.
 Import ListNotations.
 
 Fixpoint group3 (l : list Q) : list (vec3 Q) :=
@@ -135,6 +135,15 @@ Section Entries.
       flat_map (fun p => [b2q (inside_ellipse_box O (cx, cy) a b p); b2q (inside_ellipse O (cx, cy) a b p)]) (group2 pts)
     | _ => []
     end.
+
+  (* 30: curved shapes. sc = [a; b; c; cx; cy; cz] -> coefficients of pi (and ecc^2) *)
+  Definition e_curved (sc : list Q) : list Q :=
+    let a := nth 0 sc 0 in let b := nth 1 sc 0 in let c := nth 2 sc 0 in
+    let cx := nth 3 sc 0 in let cy := nth 4 sc 0 in let cz := nth 5 sc 0 in
+    let ms := ell_moments O true a b cx cy in let mf := ell_moments O false a b cx cy in
+    [ell_area O a b; ell_ecc2 O a b;
+     fst (fst ms); snd (fst ms); snd ms; fst (fst mf); snd (fst mf); snd mf; ell_polar O a b cx cy;
+     eld_volume O a b c; sph_area O a] ++ eld_inertia O a b c cx cy cz.
 End Entries.
 
 Definition dispatch (f : nat) (sc qs : list Q) (idx : list (list nat)) : option (list Q) :=
@@ -153,5 +162,6 @@ Definition dispatch (f : nat) (sc qs : list Q) (idx : list (list nat)) : option 
   | 23 => Some (e_dist2_mesh sc qs idx)
   | 24 => Some (e_inside_ellipsoid sc)
   | 25 => Some (e_ellipse sc)
+  | 30 => Some (e_curved sc)
   | _ => None
   end%nat.
